@@ -252,10 +252,14 @@ func c16CheckDump(c *Ctx, cs c16Case, state string, params Val, viol func(string
 // c16LiveSend opens one connection, writes the chunks (each its own Write), closes its sending side and reads the answer to
 // the end (the server closes after one answer).
 func c16LiveSend(port int, chunks [][]byte) ([]byte, error) {
+	return c16SendTo("127.0.0.1:"+strconv.Itoa(port), chunks)
+}
+
+func c16SendTo(hostport string, chunks [][]byte) ([]byte, error) {
 	var conn net.Conn
 	var err error
 	for try := 0; ; try++ {
-		conn, err = net.DialTimeout("tcp", "127.0.0.1:"+strconv.Itoa(port), 3*time.Second)
+		conn, err = net.DialTimeout("tcp", hostport, 3*time.Second)
 		if err == nil || try >= 3 {
 			break
 		}
